@@ -577,19 +577,34 @@ def rule_PL6(ctx, tier):
                 rr.fail("second-retrier:%s" % shortfn(b.id), "a Retrier is created at `%s` without the retriers map entry being vacant: two retry loops could run for one tower" % shortfn(b.id), where=b.line_of(bb))
     if n != 1:
         rr.fail("retrier-new-sites=%d" % n, "expected exactly one Retrier::new site")
-    # start only if should_start
+    # start only if should_start: every call of Retrier::start sits behind `should_start() == true`, either directly or
+    # through the manager's one-line wrapper (whose own call sites are then the gated ones)
     sr = "watchtower_plugin::retrier::RetryManager::start_retrying"
-    callers_start = {c for c, bb in P.callers().get(START, [])}
-    if callers_start == {sr}:
-        rr.ok("Retrier::start only via start_retrying")
-    else:
-        rr.fail("start-callers:%s" % ",".join(sorted(shortfn(c) for c in callers_start)), "Retrier::start is called from %s" % sorted(callers_start))
-    for b in P.bodies.values():
-        for bb in sites(b, sr):
-            if truth_fact(ctx, b, bb, "Retrier::should_start") is True:
-                rr.ok("start_retrying only if should_start()")
+    gated_sites = 0
+    for cid, cbb in P.callers().get(START, []):
+        if "::tests::" in cid:
+            continue
+        cb_ = P.bodies[cid]
+        if cid == sr:
+            for b in P.bodies.values():
+                for bb in sites(b, sr):
+                    gated_sites += 1
+                    if truth_fact(ctx, b, bb, "Retrier::should_start") is True:
+                        rr.ok("start_retrying only if should_start()")
+                    else:
+                        rr.fail("start-ungated:%s" % shortfn(b.id), "a retrier is started without `should_start()` (stopped and has pending data)", where=b.line_of(bb))
+        elif cid.startswith("watchtower_plugin::retrier::RetryManager::"):
+            gated_sites += 1
+            if truth_fact(ctx, cb_, cbb, "Retrier::should_start") is True:
+                rr.ok("Retrier::start only if should_start() (called from %s)" % shortfn(cid))
             else:
-                rr.fail("start-ungated:%s" % shortfn(b.id), "a retrier is started without `should_start()` (stopped and has pending data)", where=b.line_of(bb))
+                rr.fail("start-ungated:%s" % shortfn(cid), "a retrier is started without `should_start()` (stopped and has pending data)", where=cb_.line_of(cbb))
+        else:
+            rr.fail("start-callers:%s" % shortfn(cid), "Retrier::start is called from `%s`; only the retry manager starts retriers" % shortfn(cid), where=cb_.line_of(cbb))
+    if gated_sites:
+        rr.ok("Retrier::start only from the retry manager")
+    else:
+        rr.fail("start-callers:none", "nothing starts a retrier")
     ss = P.require("watchtower_plugin::retrier::Retrier::should_start")
     mc = ctx.pf.must_call()[ss.id]
     ret = og.show(ctx.og.local(ss, 0))
